@@ -37,36 +37,37 @@ type Job struct {
 }
 
 type JobResult struct {
-	Job         string            `json:"job"`
-	Paths       int               `json:"paths"`
-	Completed   int               `json:"completed"`
-	SymPaths    int               `json:"sym_paths"`
-	Decisions   int               `json:"decisions"`
-	Asserts     int               `json:"asserts"`
-	Discharged  int               `json:"discharged"`
-	AssertUnk   int               `json:"assert_unknown"`
-	Aborted     map[string]int    `json:"aborted"`
-	AssertSites map[string]int    `json:"assert_sites"`
-	Reached     map[string]int    `json:"reached"`
-	Findings    []*interp.Finding `json:"findings"`
-	Samples     []interp.Sample   `json:"samples"`
-	BoundHit    bool              `json:"bound_hit"`
-	QueueLeft   int               `json:"queue_left"`
-	Queries     int               `json:"queries"`
-	Sat         int               `json:"sat"`
-	Unsat       int               `json:"unsat"`
-	Unknown     int               `json:"unknown"`
-	SolverS     float64           `json:"solver_s"`
-	WallS       float64           `json:"wall_s"`
-	LoadS       float64           `json:"load_s"`
-	SetupS      float64           `json:"setup_s"`
-	Funcs       []string          `json:"funcs"`
-	Instr       int64             `json:"steps"`
-	Error       string            `json:"error,omitempty"`
-	Solver      string            `json:"solver"`
-	StaticSites []string          `json:"static_sites"`
-	Fallbacks   int               `json:"fallbacks"`
-	FallbackOK  int               `json:"fallback_ok"`
+	Job            string            `json:"job"`
+	Paths          int               `json:"paths"`
+	Completed      int               `json:"completed"`
+	SymPaths       int               `json:"sym_paths"`
+	Decisions      int               `json:"decisions"`
+	Asserts        int               `json:"asserts"`
+	Discharged     int               `json:"discharged"`
+	AssertUnk      int               `json:"assert_unknown"`
+	Aborted        map[string]int    `json:"aborted"`
+	AssertSites    map[string]int    `json:"assert_sites"`
+	Reached        map[string]int    `json:"reached"`
+	Findings       []*interp.Finding `json:"findings"`
+	Samples        []interp.Sample   `json:"samples"`
+	BoundHit       bool              `json:"bound_hit"`
+	QueueLeft      int               `json:"queue_left"`
+	Queries        int               `json:"queries"`
+	Sat            int               `json:"sat"`
+	Unsat          int               `json:"unsat"`
+	Unknown        int               `json:"unknown"`
+	SolverS        float64           `json:"solver_s"`
+	WallS          float64           `json:"wall_s"`
+	LoadS          float64           `json:"load_s"`
+	SetupS         float64           `json:"setup_s"`
+	Funcs          []string          `json:"funcs"`
+	Instr          int64             `json:"steps"`
+	Error          string            `json:"error,omitempty"`
+	Solver         string            `json:"solver"`
+	StaticSites    []string          `json:"static_sites"`
+	Fallbacks      int               `json:"fallbacks"`
+	FallbackOK     int               `json:"fallback_ok"`
+	PermutedRanges map[string]int    `json:"permuted_ranges,omitempty"`
 }
 
 func runWorker(jobJSON string) {
@@ -152,6 +153,7 @@ func execJob(job *Job) *JobResult {
 	res.Queries, res.Sat, res.Unsat, res.Unknown = x.S.Queries, x.S.Sat, x.S.Unsat, x.S.Unknown
 	res.SolverS = x.S.Time.Seconds()
 	res.Fallbacks, res.FallbackOK = x.S.Fallbacks, x.S.FallbackOK
+	res.PermutedRanges = eng.PermutedRanges
 	res.Funcs = encodedFuncs(eng.Funcs)
 	res.StaticSites = staticAssertSites(entry)
 	for _, f := range res.Findings {
